@@ -37,6 +37,7 @@ class Value:
         self.handled = False
 
         self._value = None
+        self._several = False
 
     def __getstate__(self):
         odict = self.__dict__.copy()
@@ -95,11 +96,14 @@ class Value:
         if isinstance(value, Value):
             value.parent = self
 
-        if self.result and isinstance(self._value, list):
+        if self.result and self._several:
             self._value.append(value)
         elif self.result:
+            # A second result: from now on the value is the list of results
+            # (the first one may be a list itself)
             self._value = [self._value]
             self._value.append(value)
+            self._several = True
         else:
             self._value = value
 
